@@ -150,6 +150,8 @@ struct LoopRun {
     policy_collections: u64,
     freed_nonzero: bool,
     instrs: u64,
+    /// the run was stopped because heap or stack passed the simulator's memory ceiling
+    ceiling_hit: bool,
 }
 
 fn run_loop(c: &LoopCase, iterations: u64) -> Result<LoopRun, String> {
@@ -160,6 +162,10 @@ fn run_loop(c: &LoopCase, iterations: u64) -> Result<LoopRun, String> {
     let mut sim = Sim::new(&c.knobs, GcPlan::None, slices, 1);
     sim.instr_cap = 2_000_000_000;
     sim.set_gc_mode(GcMode::Normal);
+    // the loops are tail loops over a bounded live set: far below these ceilings when memory is
+    // bounded. (A continuation copies the stack, so a growing stack is quadratic in memory.)
+    sim.ctl.borrow_mut().stack_ceiling = 20_000;
+    sim.ctl.borrow_mut().mem_ceiling = 2_000_000;
     let mut setup = vec![
         "(define %last-k #f)".to_string(),
         "(define (%mk n) (let loop ((i 0) (acc '())) (if (< i n) (loop (+ i 1) (cons (vector i (number->string i)) acc)) acc)))".to_string(),
@@ -192,21 +198,29 @@ fn run_loop(c: &LoopCase, iterations: u64) -> Result<LoopRun, String> {
         let per = (iterations / c.forms).max(1);
         for _ in 0..c.forms {
             let o = sim.eval_form(&format!("(%garbage-loop {})", per));
+            if sim.ctl.borrow().ceiling_hit {
+                break;
+            }
             if !matches!(o.outcome, Outcome::Value(_)) {
                 return Err(format!("loop failed: {}", o.outcome.brief()));
             }
         }
     }
-    let o = sim.eval_form("(length %live)");
-    if !matches!(o.outcome, Outcome::Value(_)) {
-        return Err(format!("live set unreadable: {}", o.outcome.brief()));
+    let ceiling_hit = sim.ctl.borrow().ceiling_hit;
+    if !ceiling_hit {
+        let o = sim.eval_form("(length %live)");
+        if !matches!(o.outcome, Outcome::Value(_)) {
+            return Err(format!("live set unreadable: {}", o.outcome.brief()));
+        }
     }
     let policy_collections = sim.vm.verif_state().collections - before;
     let freed_nonzero = sim.ctl.borrow().gc_freed_nonzero > 0;
     let heap_capacity = sim.vm.verif_heap().capacity();
     let stack_capacity = sim.vm.verif_stack().len();
     // resources that must not depend on the work done, measured right after a collection
-    sim.vm.verif_collect();
+    if !ceiling_hit {
+        sim.vm.verif_collect();
+    }
     let used = sim.vm.verif_heap().used_size();
     let symbols = sim.vm.verif_heap().verif_symbol_table().len();
     let global_slots = sim.vm.verif_globenv().iter_slots().count();
@@ -221,6 +235,7 @@ fn run_loop(c: &LoopCase, iterations: u64) -> Result<LoopRun, String> {
         policy_collections,
         freed_nonzero,
         instrs: sim.vm.verif_state().instructions,
+        ceiling_hit,
     })
 }
 
@@ -241,6 +256,15 @@ fn eval_loop(c: &LoopCase) -> LoopEval {
                 eprintln!("n={} {:?} collections={}\nn*{}={:?} collections={}", c.n, a.res, a.policy_collections, c.factor, b.res, b.policy_collections);
             }
             let mut v = None;
+            if b.ceiling_hit && !a.ceiling_hit {
+                v = Some((
+                    format!("C12 growth memory-ceiling kind={} driver={}", c.kind, c.driver),
+                    format!(
+                        "garbage loop kind={} driver={} live={} forms={} slice={:?} chunk={}: after n={} iterations {:?}; at {}n the run was stopped at the simulator's memory ceiling: {:?}",
+                        c.kind, c.driver, c.live, c.forms, c.slice_budget, c.knobs.heap_chunk, c.n, a.res, c.factor, b.res
+                    ),
+                ));
+            }
             let fields = [
                 ("heap-capacity", a.res.heap_capacity, b.res.heap_capacity),
                 ("stack-capacity", a.res.stack_capacity, b.res.stack_capacity),
@@ -249,6 +273,9 @@ fn eval_loop(c: &LoopCase) -> LoopEval {
                 ("global-slots", a.res.global_slots, b.res.global_slots),
             ];
             for (name, x, y) in fields {
+                if v.is_some() {
+                    break;
+                }
                 // capacities have a warm-up that depends on the collection cadence (the heap grows
                 // when the free list runs dry between two collection points): one growth step
                 // between n and 10n is not yet "keeps growing"; only if the capacity grows again
